@@ -65,6 +65,8 @@ class Ctx:
         self.switches = 0
         self.states: set[str] = set()
         self.sample: dict[str, Any] = {}
+        self.known = known_findings(lens)
+        self.known_hits: Counter[str] = Counter()
 
     # -- logging: never draws, never reads a clock ------------------------
     def log(self, kind: str, *details: Any, actor: str = "-") -> None:
@@ -106,15 +108,34 @@ class Ctx:
         cond: bool | Callable[[], bool],
         detail: Any = "",
         site: str = "",
-    ) -> None:
+    ) -> bool:
+        """True if the invariant holds (or is another lens's); False only for a *listed known finding*."""
         if prop != self.lens:
-            return
+            return True
         self.checks[inv] += 1
         ok = cond() if callable(cond) else cond
         if not ok:
             d = detail() if callable(detail) else detail
+            k = self._known(inv, site, str(d))
+            if k is not None:
+                # a listed finding: counted, announced by the runner, and the run goes on
+                self.known_hits[known_id(k)] += 1
+                self.note("KNOWN-FINDING", prop, inv, site)
+                return False
             self.log("VIOLATION", prop, inv, site, d)
             raise ViolationFound(prop, inv, site, _short(d, 400))
+        return True
+
+    def _known(self, inv: str, site: str, detail: str) -> dict[str, Any] | None:
+        for k in self.known:
+            if k["invariant"] != inv:
+                continue
+            if k.get("site") and k["site"] != site:
+                continue
+            if k.get("detail_contains") and k["detail_contains"] not in detail:
+                continue
+            return k
+        return None
 
     @contextmanager
     def must_succeed(self, prop: str, inv: str, site: str = "") -> Iterator[None]:
@@ -134,6 +155,11 @@ class Ctx:
             if prop == self.lens:
                 self.checks[inv] += 1
                 d = f"{type(e).__name__}: {e}"
+                k = self._known(inv, site, d)
+                if k is not None:
+                    self.known_hits[known_id(k)] += 1
+                    self.note("KNOWN-FINDING", prop, inv, site)
+                    raise RunAborted(f"known finding {known_id(k)}") from e
                 self.log("VIOLATION", prop, inv, site, d)
                 raise ViolationFound(prop, inv, site, _short(d, 400)) from e
             raise RunAborted(f"{prop}/{inv}@{site}: {type(e).__name__}: {e}") from e
@@ -148,6 +174,31 @@ class Ctx:
 
     def trace_hash(self) -> str:
         return hashlib.sha256("|".join(self.trace).encode()).hexdigest()[:16]
+
+
+_KNOWN_CACHE: dict[str, list[dict[str, Any]]] | None = None
+
+
+def known_findings(prop: str) -> list[dict[str, Any]]:
+    """The ``known`` entries of /verif/known_findings.json for one property. Read once, never written."""
+    global _KNOWN_CACHE  # noqa: PLW0603
+    if _KNOWN_CACHE is None:
+        import json  # noqa: PLC0415
+        import os  # noqa: PLC0415
+
+        path = os.path.join(os.path.dirname(os.path.dirname(os.path.dirname(os.path.abspath(__file__)))), "known_findings.json")
+        by_prop: dict[str, list[dict[str, Any]]] = {}
+        if os.path.exists(path):
+            with open(path) as f:
+                for k in json.load(f).get("findings", []):
+                    if k.get("status") == "known":
+                        by_prop.setdefault(k["property"], []).append(k)
+        _KNOWN_CACHE = by_prop
+    return _KNOWN_CACHE.get(prop, [])
+
+
+def known_id(k: dict[str, Any]) -> str:
+    return f"{k['invariant']}@{k.get('site', '*')}"
 
 
 class HarnessTimeout(BaseException):
